@@ -67,7 +67,7 @@ var (
 )
 
 // representations of one G2 point as a library key object
-var reprCycle = []string{"jacobian1", "decoded", "jacobian2", "aggregate"}
+var reprCycle = []string{"jacobian1", "decoded", "jacobian2", "aggregate", "aggregate-private"}
 
 // shared objects per alphabet key
 var (
@@ -118,6 +118,12 @@ func mkRepr(k *big.Int, name string) crypto.PublicKey {
 		pk = libPK(k)
 	case "aggregate": // affine sum of two keys
 		pk, err = crypto.AggregateBLSPublicKeys([]crypto.PublicKey{libPK(new(big.Int).Sub(k, cAgg)), libPK(cAgg)})
+	case "aggregate-private": // public key of an aggregated PRIVATE key (for 0: the zero key's public key)
+		var ask crypto.PrivateKey
+		ask, err = crypto.AggregateBLSPrivateKeys([]crypto.PrivateKey{libSK(mod(new(big.Int).Sub(k, cAgg))), libSK(mod(cAgg))})
+		if err == nil {
+			pk = ask.PublicKey()
+		}
 	case "jacobian1": // RemoveBLSPublicKeys leaves a non-normalised Jacobian point
 		pk, err = crypto.RemoveBLSPublicKeys(libPK(new(big.Int).Add(k, cJ1)), []crypto.PublicKey{libPK(cJ1)})
 	case "jacobian2":
